@@ -199,8 +199,12 @@ def streams(seed, tier):
                 both.append(stepgen.step_case(random.Random(sd), nm, sorted(modelled), allsafe, profile=prof))
     out.append(Stream("single-steps-both-profiles", "run", "run.check", both,
                       "one step of each of the %d deterministic instructions on %d random whole states, each state run in the debug AND in the release build" % (len(sweep), per)))
+    # (1e) reading a program text depends on the instruction set HANDED IN, not on what was parsed earlier on the thread
+    from gen import parsegen as PG
+    out.append(Stream("parse-after-other-parses", "parse.st", "parse.st.check", PG.onto_state_cases(rng, sorted(modelled), sorted(modelled)[:8], {"quick": 400, "thorough": 4000, "search": 1000}[tier]),
+                      "program texts with and without host-registered instruction names, parsed one after the other by the same worker thread (each with its own InstructionSet)"))
     # (2) node ids under real concurrency
-    idc = [[16, 10000, 0], [16, 100000, 0], [16, 10000, 1], [1, 1000, 0], [2, 100000, 1], [8, 20000, 1], [1, 300, 2], [8, 3000, 2], [16, 1000, 2], [1, 200, 3], [8, 2000, 3]]
+    idc = [[16, 10000, 0], [16, 100000, 0], [16, 10000, 1], [1, 1000, 0], [2, 100000, 1], [8, 20000, 1], [1, 300, 2], [8, 3000, 2], [16, 1000, 2], [1, 200, 3], [8, 2000, 3], [1100, 3, 0], [1500, 2, 1]]
     if tier != "quick":
         idc += [[16, 1000000, 0], [64, 10000, 0], [64, 10000, 1], [16, 100000, 1]]
     cases = [sx_str([prof] + c) for c in idc for prof in (0, 1)]
